@@ -750,3 +750,116 @@ Proof.
   apply (check_history_model imgs contents Wimg Wid ops (kitty_new quiet) track0); [|exact Hok|exact Hlen].
   apply sim_init.
 Qed.
+
+(* ------------------------------------------------------------------------------------------ *)
+(* The id table over histories.  The handler keeps TWO maps: `k_ids` (content hash -> id, never
+   shrinks) and `k_imgs` (id -> image counted as transmitted; entries are dropped by error
+   responses and never made by erase).  An id can therefore be assigned while nothing is filed
+   under it (erase of a content never drawn, error response without placement).  The free-id probe
+   has to look at `k_ids`: the statements below speak about every assigned id, transmitted or not,
+   for arbitrary hash values (the hash is an input of every call: any hash function, any collision
+   of the derived ids `hash mod 2^32-1 + 1`). *)
+Lemma draw_ids st img hash pos :
+  k_ids (snd (draw st img hash pos)) = k_ids st \/
+  k_ids (snd (draw st img hash pos)) = ids_note (k_ids st) hash.
+Proof.
+  unfold draw. destruct ((im_height img =? 0) || (im_width img =? 0)); [left; reflexivity|].
+  destruct (lookup (image_id st hash) (k_imgs st)); right; reflexivity.
+Qed.
+
+Lemma step_ids st o :
+  k_ids (snd (step st o)) = k_ids st \/ exists hash, k_ids (snd (step st o)) = ids_note (k_ids st) hash.
+Proof.
+  destruct o as [img hash pos|img hash pos|ev]; cbn [step].
+  - destruct (draw_ids st img hash pos) as [H|H]; destruct (draw st img hash pos) as [b st'];
+      cbn [snd] in *; [left; exact H|right; exists hash; exact H].
+  - right. exists hash. reflexivity.
+  - unfold handle. destruct ev as [id pl err|]; [|left; reflexivity].
+    destruct err; [|left; reflexivity].
+    destruct (lookup id (k_imgs st)) as [[img hash]|]; [|left; reflexivity].
+    destruct pl as [p|]; [|left; reflexivity].
+    destruct (draw_ids (mkKitty (remove_key id (k_imgs st)) (k_ids st) (Some 2)) img hash (placement_to_pos p)) as [H|H];
+      destruct (draw _ img hash (placement_to_pos p)) as [b st2]; cbn [snd fst k_ids] in *;
+      [left; exact H|right; exists hash; exact H].
+Qed.
+
+Lemma ids_note_len ids hash : (length (ids_note ids hash) <= S (length ids))%nat.
+Proof. unfold ids_note. destruct (lookup hash ids); cbn [length]; lia. Qed.
+
+Lemma step_ids_ok st o : ids_ok (k_ids st) -> N.of_nat (S (length (k_ids st))) < KITTY_MAX_ID ->
+  ids_ok (k_ids (snd (step st o))) /\
+  (length (k_ids (snd (step st o))) <= S (length (k_ids st)))%nat /\
+  (forall h i, lookup h (k_ids st) = Some i -> lookup h (k_ids (snd (step st o))) = Some i).
+Proof.
+  intros Hok Hroom. destruct (step_ids st o) as [H|[hash H]]; rewrite H.
+  - split; [exact Hok|]. split; [lia|]. intros h i Hl. exact Hl.
+  - split; [apply ids_note_ok; assumption|]. split; [apply ids_note_len|].
+    intros h i Hl. apply lookup_note_kept, Hl.
+Qed.
+
+(* handler and terminal after a history (every call with its flag: terminal lost the image or not) *)
+Fixpoint final_pair (st : kitty) (s : tstore) (ops : list (op * bool)) : kitty * tstore :=
+  match ops with
+  | [] => (st, s)
+  | (o, lost) :: r => final_pair (snd (step st o)) (term_step lost st s o) r
+  end.
+
+Lemma final_inv strict : forall ops st s, Inv strict st s ->
+  Forall (fun ol => op_wf (fst ol) /\ (strict = true -> snd ol = true)) ops ->
+  Inv strict (fst (final_pair st s ops)) (snd (final_pair st s ops)).
+Proof.
+  induction ops as [|[o lost] r IH]; intros st s HI Hw; [exact HI|].
+  inversion Hw as [|? ? [Ho Hl] Hr]; subst. cbn [final_pair fst snd] in *.
+  apply IH; [|exact Hr]. exact (proj1 (step_ok strict lost st s o Hl HI Ho)).
+Qed.
+
+Lemma final_ids_ok : forall ops st s, ids_ok (k_ids st) ->
+  N.of_nat (length (k_ids st) + length ops) < KITTY_MAX_ID ->
+  ids_ok (k_ids (fst (final_pair st s ops))) /\
+  (forall h i, lookup h (k_ids st) = Some i -> lookup h (k_ids (fst (final_pair st s ops))) = Some i).
+Proof.
+  induction ops as [|[o lost] r IH]; intros st s Hok Hroom; cbn [final_pair fst].
+  - split; [exact Hok|]. intros h i H. exact H.
+  - cbn [length] in Hroom.
+    destruct (step_ids_ok st o Hok) as (Hok' & Hlen & Hkeep); [lia|].
+    destruct (IH (snd (step st o)) (term_step lost st s o) Hok') as [H1 H2]; [lia|].
+    split; [exact H1|]. intros h i Hl. apply H2, Hkeep, Hl.
+Qed.
+
+Lemma ids_ok_nil : ids_ok [].
+Proof.
+  constructor; cbn [map length].
+  - intros h0 i0 H0. discriminate.
+  - constructor.
+  - constructor.
+  - rewrite max_id_const. reflexivity.
+Qed.
+
+(* over every history on a new handler (hash values arbitrary, error responses genuine), at the end:
+   (1) no two content hashes hold the same id -- transmitted or not;
+   (2) what is counted as transmitted is filed under the id of its own hash and the terminal holds
+       exactly its pixels under that id;
+   (3) every placement on the terminal names an id under which such an image is filed.
+   Hence every placement shows the pixels of the one content its id belongs to. *)
+Theorem live_contents_distinct (quiet : bool) (ops : list op) :
+  Forall op_wf ops -> N.of_nat (length ops) < KITTY_MAX_ID ->
+  let fin := final_pair (kitty_new quiet) store0 (map (fun o => (o, true)) ops) in
+  let st := fst fin in let s := snd fin in
+  (forall h1 h2 i, lookup h1 (k_ids st) = Some i -> lookup h2 (k_ids st) = Some i -> h1 = h2) /\
+  (forall id img hash, lookup id (k_imgs st) = Some (img, hash) ->
+     lookup hash (k_ids st) = Some id /\ img_lookup id (t_images s) = Some (content_of img)) /\
+  (forall p, In p (t_places s) -> exists img hash, lookup (place_id p) (k_imgs st) = Some (img, hash)).
+Proof.
+  intros Hw Hlen fin st s.
+  assert (HI : Inv true st s).
+  { apply final_inv; [apply inv_init|]. apply Forall_forall. intros [o l] Hin.
+    apply in_map_iff in Hin as (o' & E & Hin'). inversion E; subst. cbn [fst snd]. split; [|reflexivity].
+    rewrite Forall_forall in Hw. apply Hw, Hin'. }
+  assert (Hok : ids_ok (k_ids st)).
+  { apply final_ids_ok; [apply ids_ok_nil|]. cbn [kitty_new k_ids length]. rewrite map_length. exact Hlen. }
+  destruct HI as [Hc He Hp Hi Hv Hpc Hir]. split; [|split].
+  - intros h1 h2 i H1 H2. exact (ids_ok_inj (k_ids st) h1 h2 i Hok H1 H2).
+  - intros id img hash Hl. split; [exact (proj1 (Hc id img hash Hl))|exact (Hi id img hash Hl)].
+  - intros p Hin. specialize (Hpc eq_refl p Hin).
+    destruct (lookup (place_id p) (k_imgs st)) as [[img hash]|]; [exists img, hash; reflexivity|contradiction].
+Qed.
